@@ -286,9 +286,14 @@ pub fn run_loader(c: &Cfg, order: &[(u64, u64)]) -> Result<RunOut, String> {
 /// taken, the iteration abandoned) before it is set to the requested epoch / offset and iterated again, as a
 /// training loop does
 pub fn run_loader_with(c: &Cfg, order: &[(u64, u64)], reused: bool) -> Result<RunOut, String> {
+    run_loader_at(c, order, reused, files_for(&c.lens, c.bad, cls_files(c.prep)))
+}
+
+/// the loader of configuration `c` over the given files (which must have the content of `files_for`)
+pub fn run_loader_at(c: &Cfg, order: &[(u64, u64)], reused: bool, paths: Vec<String>) -> Result<RunOut, String> {
     let pos: BTreeMap<(u64, u64), u64> = order.iter().enumerate().map(|(i, p)| (*p, i as u64)).collect();
     let mut l = VerifTrainLoader::from_files(
-        files_for(&c.lens, c.bad, cls_files(c.prep)),
+        paths,
         pipeline(c.prep, c.lens.len()),
         strat(c.strategy),
         c.threads as u8,
@@ -400,6 +405,9 @@ pub fn exec(op: &str, a: &[u64]) -> Result<Outcome, String> {
     }
     if op == "selectstall" {
         return exec_stall(a);
+    }
+    if op == "selectreload" {
+        return exec_reload(a);
     }
     if op != "select" {
         return Err(format!("unknown op {op}"));
@@ -534,6 +542,64 @@ fn exec_stall(a: &[u64]) -> Result<Outcome, String> {
     Ok(o)
 }
 
+/// `selectreload <select request>`: the files of the request are first written, at fresh paths, with OTHER content of
+/// exactly the same byte size but another number of lines, and loaded; then the real content is written to the same
+/// paths and loaded.  "For fixed files ... the sequence is identical": what a path contained earlier in the process
+/// must not matter (sizes, line counts, offsets remembered per path).
+fn exec_reload(a: &[u64]) -> Result<Outcome, String> {
+    static COUNTER: std::sync::atomic::AtomicUsize = std::sync::atomic::AtomicUsize::new(0);
+    let mut r = Rd::new(a);
+    let c = rd_cfg(&mut r)?;
+    let _invalid = r.nats()?;
+    r.end()?;
+    if c.world == 0 || c.rank >= c.world {
+        return Err("bad rank / world size".into());
+    }
+    let order = global_order(&c)?;
+    let real = files_for(&c.lens, c.bad, cls_files(c.prep));
+    let reference = run_loader(&c, &order)?;
+    let run = COUNTER.fetch_add(1, std::sync::atomic::Ordering::SeqCst);
+    let mut paths = vec![];
+    let mut contents = vec![];
+    for (k, p) in real.iter().enumerate() {
+        let bytes = std::fs::read(p).map_err(|e| e.to_string())?;
+        // same size, other number of lines: all line feeds but the last become blanks; a one-line file gets a second line
+        let mut decoy = bytes.clone();
+        let lf: Vec<usize> = decoy.iter().enumerate().filter(|(_, b)| **b == b'\n').map(|(i, _)| i).collect();
+        if lf.len() >= 2 {
+            for &i in &lf[..lf.len() - 1] {
+                decoy[i] = b' ';
+            }
+        } else if let Some(i) = decoy.iter().position(|b| *b == b' ') {
+            decoy[i] = b'\n';
+        }
+        let q = format!("{}/reload-{run}-{k}.jsonl", tmp());
+        std::fs::write(&q, &decoy).map_err(|e| e.to_string())?;
+        paths.push(q);
+        contents.push(bytes);
+    }
+    // load the decoys (whatever they give), then put the real content at the same paths
+    let _ = std::panic::catch_unwind(|| run_loader_at(&Cfg { threads: 0, ..c.clone() }, &order, false, paths.clone()).ok());
+    for (q, bytes) in paths.iter().zip(&contents) {
+        std::fs::write(q, bytes).map_err(|e| e.to_string())?;
+    }
+    let after = run_loader_at(&c, &order, false, paths.clone());
+    for q in &paths {
+        std::fs::remove_file(q).ok();
+    }
+    let after = after?;
+    let as_ids = |r: &RunOut| r.batches.iter().map(|b| b.iter().map(|x| (x.0, x.2.clone())).collect::<Vec<_>>()).collect::<Vec<_>>();
+    let mut idx: Vec<u64> = after.batches.iter().flatten().map(|x| x.0).collect();
+    idx.sort();
+    let mut v = vec![];
+    enc_nats(&mut v, idx.iter().copied());
+    v.push(after.min_items.unwrap_or(0) as u64);
+    let mut o = Outcome::new(ok(v));
+    o.check(as_ids(&after) == as_ids(&reference), "the items / batches of a loader depend on what its files contained EARLIER in this process (same paths, same sizes, other lines)");
+    o.check(after.min_items == reference.min_items, "min_items depends on what the files contained earlier in this process");
+    Ok(o)
+}
+
 fn invalid_indices(c: &Cfg, order: &[(u64, u64)]) -> Vec<u64> {
     order.iter().enumerate().filter(|(_, (src, k))| is_bad(c.bad, *src, *k)).map(|(i, _)| i as u64).collect()
 }
@@ -605,6 +671,14 @@ pub fn run_c08(ctx: &mut Ctx) {
             _ => {}
         }
         ctx.case("select", &enc_select(&c));
+        if i % 4 == 2 {
+            // (weighted sampling and min_items depend on the line counts of the files)
+            let mut cr = c.clone();
+            if i % 8 == 2 {
+                cr.strategy = 2;
+            }
+            ctx.case("selectreload", &enc_select(&cr));
+        }
         // the batch sequence of this loader, replayed by the C06 model: items in delivery order of the pipeline
         // (= selection order), sizes = item sizes, same batching configuration and seed
         if let Ok(order) = global_order(&c) {
